@@ -164,13 +164,13 @@ EXTRA_TEXT = {
  'C04': ' Also: sort reaches sort_by only for an empty list or when every element is comparable with the first element and with itself (Ok(Some) both: a total order, no NaN) - also when the guard is written as iter().all(closure) (R04.8); min / max over three arguments equal the fold with strict replacement for all four outcomes of the two comparisons (R04.9).',
  'C06': ' List membership is decided as the table on a concrete two-element list (first hit answers true, no hit false; identical for the loop and the iter().any() form).',
  'C08': ' Also (R08.5): where absence comes from - in the Access arm a missing field is an Attribute error on a map without the key and on a value that has no fields; the value or failure of a referenced stored program is passed on unchanged (or refused by the cycle guard before evaluation).',
- 'C09': ' Also: the guard that keeps failures out of frozen call results looks at every depth (decision table: Err -> true, list / map -> any element recursively); R09.7: every call argument block is evaluated by run_raw on the calling interpreter and a failing argument fails the call, whatever the block looks like.',
+ 'C09': ' Also: the guard that keeps failures out of frozen call results looks at every depth (decision table: Err -> true, list / map -> any element recursively); R09.7: every call argument block is evaluated by run_raw on the calling interpreter and a failing argument fails the call, whatever the block looks like. R09.8: a call is frozen only if its compile-time evaluation read nothing a later execution may see differently - check_for_const tests the run-dependence mark of the interpreter after the run; the mark is set wherever an unbound name becomes a value and wherever a timestamp is constructed from no arguments (however the type was reached), and child interpreters share it. R09.9: reads_clock(), executed symbolically on 21 concrete programs (now as function, method `x.now()`, value; timestamp(); each nested one and two argument blocks deep), answers true.',
  'C10': ' Also (R10.6): resolve() appends exactly one instruction per Bytecode / Jmp / JmpCond code point on every path, none for a Label, and touches its output in no other way - so label positions equal instruction positions.',
  'C18': ' Also (R18.6): every node created inside a parse function besides its result (member steps, argument lists, entries, cases) spans from no later than its first to no earlier than its last sub-tree, and an explicit (start, end) pair is in source order.',
  'C11': ' Also: in every mutator of CelContext / BindContext a field that is updated at all is updated on every path on which another field is updated (no derived table can keep a stale entry after a name is replaced).',
  'C12': ' Also: a program found under an identifier is ALWAYS evaluated by run_raw on the same interpreter and its value or failure is passed on unchanged; R12.6: a stored program is never entered while it is already being evaluated (guard asked with the name before run_raw in identifier resolution and run_program, fails when listed, lists otherwise, unlisted by Drop, inherited by child interpreters) - a cyclic reference is an error at once.',
- 'C13': ' Also: every Int / UInt / Float token the number scanner builds carries exactly the result of the std parser for the scanned text on every path; the one accepting range test of the escape tables is the octal first digit 0..3.',
- 'C16': ' Also: decision rows of timestamp / duration + and - (t + d, d + t, t - d through the checked signed operations in operand order, t1 - t2 = signed_duration_since(t1, t2), d1 +/- d2 checked, None -> error).',
+ 'C13': ' Also: every Int / UInt / Float token the number scanner builds carries exactly the result of the std parser for the scanned text on every path; the one accepting range test of the escape tables is the octal first digit 0..3. R13.8: in the bytes-literal scanner the only `char as u8` narrowings are of a two-digit hex escape or under an ASCII test; unescaped characters are appended as UTF-8.',
+ 'C16': ' Also: decision rows of timestamp / duration + and - (t + d, d + t, t - d through the checked signed operations in operand order, t1 - t2 = signed_duration_since(t1, t2), d1 +/- d2 checked, None -> error). R16.8: dataflow of the zoned overloads - the accessor chain of the UTC overload is applied to the value returned by get_adjusted_datetime(this, zone), and no calendar field is read from the raw instant.',
  'C19': ' Also: every enum of the closure keeps the externally tagged representation; only the reviewed run-time-only CelValue variants (Message, Enum, Dyn) are left out; envelope + (parser nesting limit - 1) x JSON levels per nested code block + deepest constant <= 127, the deepest document serde_json reads back.',
 }
 for _k, _u in UPDATES.items():
